@@ -7,7 +7,6 @@ import (
 	"context"
 	"errors"
 	"fmt"
-	"path"
 	"slices"
 	"strings"
 	"time"
@@ -694,7 +693,10 @@ func (ps *Store) sanitizeName(name string) string {
 }
 
 func (ps *Store) cacheKey(ns *namespace.Namespace, name string) string {
-	return path.Join(ns.UUID, name)
+	// Plain concatenation: the name must not be interpreted as a path. A
+	// cleaned join would map "../<other namespace's uuid>/<name>" onto the
+	// cache entry of that other namespace's policy.
+	return ns.UUID + "/" + name
 }
 
 // LoadDefaultPolicies loads default policies for the namespace in the provided context
